@@ -96,8 +96,10 @@ def gen_key(rng, depth):
     if r < 0.68:
         hasdef = rng.random() < 0.6
         key = rng.choice([{'k': 'str', 's': 'a'}, {'k': 'str', 's': 'b'}, {'k': 'str', 's': 'bb'}, {'k': 'int', 'i': 1}])
-        return {'op': 'optional', 'key': key, 'hasdef': hasdef,
-                'def': rand_tree(rng, 1) if hasdef else {'k': 'none'}}
+        dflt = rand_tree(rng, 1) if hasdef else {'k': 'none'}
+        if hasdef and rng.random() < 0.2:       # a default holding T: resolved against the dict being matched
+            dflt = {'k': 'c', 'cls': rng.choice(['list', 'tuple']), 'items': [{'k': 'targ', 'steps': []}, rand_scalar(rng)]}
+        return {'op': 'optional', 'key': key, 'hasdef': hasdef, 'def': dflt}
     if r < 0.8:
         inner = rng.choice([{'op': 'type', 't': rng.choice(['str', 'int', 'object'])},
                             {'op': 'm', 'cmp': '!=', 'rhs': {'k': 'str', 's': 'b'}},
